@@ -60,7 +60,8 @@ type Stats struct {
 }
 
 type variantBuf struct {
-	checker string
+	checker  string
+	caseType string
 	cur     []string
 	curIdx  []int
 }
@@ -104,7 +105,7 @@ func (s *Sink) Add(c Case, nontrivial bool) {
 
 // AddPreV: like AddPre, but the case is evaluated with the checker of the named variant
 // (its own shard files); identical texts are only deduplicated within one variant.
-func (s *Sink) AddPreV(variant, checker string, c Case, text string, b []byte, nontrivial bool) {
+func (s *Sink) AddPreV(variant, checker, caseType string, c Case, text string, b []byte, nontrivial bool) {
 	if variant == "" {
 		s.AddPre(c, text, b, nontrivial)
 		return
@@ -114,7 +115,7 @@ func (s *Sink) AddPreV(variant, checker string, c Case, text string, b []byte, n
 	}
 	vb := s.curV[variant]
 	if vb == nil {
-		vb = &variantBuf{checker: checker}
+		vb = &variantBuf{checker: checker, caseType: caseType}
 		s.curV[variant] = vb
 	}
 	s.addCommon(c, b, variant+"\x00"+text, text, nontrivial, vb)
@@ -174,7 +175,7 @@ func (s *Sink) addCommon(c Case, b []byte, keytext, text string, nontrivial bool
 		vb.cur = append(vb.cur, text)
 		vb.curIdx = append(vb.curIdx, idx)
 		if len(vb.cur) >= s.perFile {
-			s.flushBuf(vb.checker, vb.cur, vb.curIdx)
+			s.flushBuf(vb.checker, vb.caseType, vb.cur, vb.curIdx)
 			vb.cur, vb.curIdx = nil, nil
 		}
 		return
@@ -187,11 +188,11 @@ func (s *Sink) addCommon(c Case, b []byte, keytext, text string, nontrivial bool
 }
 
 func (s *Sink) flush() {
-	s.flushBuf(s.checker, s.cur, s.curIdx)
+	s.flushBuf(s.checker, s.caseType, s.cur, s.curIdx)
 	s.cur, s.curIdx = nil, nil
 }
 
-func (s *Sink) flushBuf(checker string, cur []string, curIdx []int) {
+func (s *Sink) flushBuf(checker, caseType string, cur []string, curIdx []int) {
 	if len(cur) == 0 {
 		return
 	}
@@ -201,7 +202,7 @@ func (s *Sink) flushBuf(checker string, cur []string, curIdx []int) {
 	defs, body := internLiterals(strings.Join(cur, ";\n"))
 	sb.WriteString(s.prelude)
 	sb.WriteString(defs)
-	sb.WriteString("\nDefinition cases : list " + s.caseType + " := [\n")
+	sb.WriteString("\nDefinition cases : list " + caseType + " := [\n")
 	sb.WriteString(body)
 	sb.WriteString("\n].\n")
 	sb.WriteString("Definition R := Eval vm_compute in " + checker + " cases.\nPrint R.\n")
@@ -218,7 +219,7 @@ func (s *Sink) flushBuf(checker string, cur []string, curIdx []int) {
 func (s *Sink) Close(rule string, exhaustive bool) {
 	s.flush()
 	for _, vb := range s.curV {
-		s.flushBuf(vb.checker, vb.cur, vb.curIdx)
+		s.flushBuf(vb.checker, vb.caseType, vb.cur, vb.curIdx)
 	}
 	_ = s.jsonl.Close()
 	s.stats.Rule = rule
@@ -346,7 +347,7 @@ func RunTasksNT(sink *Sink, tasks []Task, nt func(Case) bool) {
 			ntv = nt(out[i].c)
 		}
 		if sink.fsVariant && t.Store.name == "file" {
-			sink.AddPreV("fs", "check_all_fs", out[i].c, out[i].text, out[i].js, ntv)
+			sink.AddPreV("fs", "check_all_fs", "(list req * list resp)", out[i].c, out[i].text, out[i].js, ntv)
 		} else {
 			sink.AddPre(out[i].c, out[i].text, out[i].js, ntv)
 		}
@@ -380,6 +381,8 @@ func main() {
 		genC04(*out, *tier, rng)
 	case "C02", "C10", "C15":
 		genHist(*prop, *out, *tier, rng, "")
+	case "C07":
+		genC07(*out, *tier, rng)
 	case "C09":
 		genC09(*out, *tier, rng)
 	case "C11":
